@@ -7,7 +7,10 @@ B  whole pipeline vs. an independent enumeration of winding-number-1 cycles over
    two concatenated iterations (bounded/dg_oracle.py C05: all kernels of length <= 3 over the vocabulary + random
    kernels, both ISAs, with/without flag dependencies, kernels located at line 1 and at line 1500);
    report/LCD-column consistency is checked by the C13 harness (shared).
-U  "paths i -> i+offset of the doubled graph are exactly the winding-1 cycles" (DESIGN C05(f)) is argued, not mechanised.
+L  window lemma: with forward edges, a path from instruction i to its copy in the next iteration stays inside the two concatenated
+   iterations and has at most n edges (so no cut-off at the end of the doubled kernel and no depth bound below n is admissible).
+U  the remaining step of DESIGN C05(f) - the dependency relation computed on the doubled kernel equals the periodic relation
+   restricted to it - is argued from the find_depending contract, not mechanised.
 """
 import z3
 
@@ -149,11 +152,37 @@ def lcd_column_unit(res):
     return res
 
 
+def window_lemma_unit(res):
+    """L (mechanised part of the cycle characterisation): dependency edges point forward (C03).  A path p_0 < p_1 < ... < p_m of
+    the periodic dependency relation from instruction i of one iteration (p_0 = i, 0 <= i < n) to the same instruction of the next
+    (p_m = i + n) therefore only visits nodes in [i, i + n], a subset of the two concatenated iterations [0, 2n): the doubled kernel
+    contains every such cycle, and nothing between the copies is cut off.  Induction over the position in the path."""
+    I_ = z3.IntSort()
+    pth = z3.Function("p", I_, I_)
+    m, n, i, j, k = z3.Ints("m n i j k")
+    fwd = z3.ForAll([j], z3.Implies(z3.And(0 <= j, j < m), pth(j) < pth(j + 1)))
+    # lower bound: p_0 <= p_k
+    res.add("window/lower/base", [fwd, m >= 0], pth(0) <= pth(0), label="L")
+    res.add("window/lower/step", [fwd, m >= 0, 0 <= k, k < m, pth(0) <= pth(k)], pth(0) <= pth(k + 1), label="L")
+    # upper bound, counted from the end: p_{m-k} <= p_m
+    res.add("window/upper/base", [fwd, m >= 0], pth(m - 0) <= pth(m), label="L")
+    res.add("window/upper/step", [fwd, m >= 0, 0 <= k, k < m, pth(m - k) <= pth(m)], pth(m - (k + 1)) <= pth(m), label="L")
+    # consequence for a cross-iteration path
+    hyp = [fwd, m >= 1, n >= 1, 0 <= i, i < n, pth(0) == i, pth(m) == i + n, 0 <= k, k <= m, pth(0) <= pth(k), pth(k) <= pth(m)]
+    res.add("window/path-stays-inside-two-iterations", hyp, z3.And(0 <= pth(k), pth(k) < 2 * n), label="L")
+    # and such a path visits at most n + 1 nodes (strictly increasing integers in [i, i + n]): induction p_k >= p_0 + k
+    res.add("window/length/base", [fwd], pth(0) >= pth(0) + 0, label="L")
+    res.add("window/length/step", [fwd, 0 <= k, k < m, pth(k) >= pth(0) + k], pth(k + 1) >= pth(0) + k + 1, label="L")
+    res.add("window/length/bound", [m >= 0, pth(0) == i, pth(m) == i + n, pth(m) >= pth(0) + m], m <= n, label="L")
+    return res
+
+
 def units(tier):
     from .c16 import partition_unit, extend_path_unit, postprocess_unit, search_agreement_unit
     return [
         Unit("C05/check_for_loopcarried_dep/post-processing(sum, members, reported once)", postprocess_unit, "P", [(KDG, "KernelDG.check_for_loopcarried_dep")]),
         Unit("C05/search-call-agreement(worker = sequential)", search_agreement_unit, "P", [(KDG, "KernelDG._extend_path"), (KDG, "KernelDG.check_for_loopcarried_dep")]),
+        Unit("C05/lemma/cross-iteration-paths-lie-inside-the-doubled-kernel", window_lemma_unit, "L", []),
         Unit("C05/full_analysis_dict(LCD column and summary, any previous marks)", lcd_column_unit, "Pb", [(FE, "Frontend.full_analysis_dict")]),
         Unit("C05/check_for_loopcarried_dep/partition(kernels >= 50 lines)", partition_unit, "P", [(KDG, "KernelDG.check_for_loopcarried_dep")]),
         Unit("C05/_extend_path", extend_path_unit, "P", [(KDG, "KernelDG._extend_path")]),
